@@ -367,13 +367,13 @@ fn expect_reject(e: &mut Emitter, o: &Outer, inst: &Instance, what: &str, p: &SP
     // quotient: `vanishing(ζ) = Z_H(ζ)·t(ζ)` is then `0 = Z_H(ζ)·0` whatever degree Z_H is computed for,
     // so a wrong degree parameter cannot be noticed by the quotient check. Such acceptances are
     // legitimate (a false alarm met in the thorough tier); they are counted, not reported.
+    // (An earlier version of this check exempted such instances in FIXED mode as "legitimate". They
+    // are not: `degree_bits` is a witness of the outer circuit, and in fixed mode nothing tied it to the
+    // degree the circuit was built for — F-C11-2, repaired in /repo. The assertion is strict again.)
     let degenerate = p.proof.openings.quotient_polys.as_ref().map_or(true, |q| q.iter().all(|x| *x == <FE as Field>::ZERO));
     if circ == "ACCEPT" {
-        if degenerate && what.starts_with("wrong pis_degree_bits (fixed)") {
-            e.count("degenerate instance (zero quotient): wrong pis_degree_bits accepted in fixed mode, legitimately");
-        } else {
-            e.oracle_failures.push(format!("in-circuit STARK verifier ACCEPTS `{what}` (pis_degree_bits={pis_degree_bits}) of {} presented to the {}", inst.what, o.desc));
-        }
+        let tag = if what.starts_with("wrong pis_degree_bits (fixed)") { "F-C11-2 (fixed-degree circuit does not pin its degree_bits witness): " } else { "" };
+        e.oracle_failures.push(format!("{tag}in-circuit STARK verifier ACCEPTS `{what}` (pis_degree_bits={pis_degree_bits}, zero quotient: {degenerate}) of {} presented to the {}", inst.what, o.desc));
     }
     e.count(&format!("variant {}: expected REJECT / circuit {}", class_name(what), circ));
     e.count(&format!("circuit outcome at {stage}"));
@@ -552,6 +552,20 @@ fn fixed_group(e: &mut Emitter, r: &mut Rng, kind: AirKind, k: usize, one_query:
         let full = thorough || kk.is_power_of_two() || (i == 0 && !(kk + 1).is_power_of_two());
         variants(e, r, &o, &inst, per_class, full);
         built.push((o, inst));
+    }
+    // an all-zero Fibonacci trace (zero quotient): the quotient identity cannot notice a wrong degree,
+    // so only a constraint tying the `degree_bits` witness to the circuit's degree can reject it
+    if matches!(kind, AirKind::Fib) {
+        let kk = ks[0];
+        let (rows, pis) = fibonacci_trace(1 << kk, F::ZERO, F::ZERO);
+        if let Some(inst) = honest(e, "c11", &src.air, &config, None, &rows, &pis, "fibonacci, all-zero trace (fixed mode)") {
+            if let Some((o, _)) = built.iter().find(|(o, _)| o.degree_bits == kk) {
+                for wrong in [kk - 1, kk + 1] {
+                    if wrong == 0 { continue; }
+                    expect_reject(e, o, &inst, &format!("wrong pis_degree_bits (fixed): {wrong} instead of {kk}"), &inst.proof, wrong);
+                }
+            }
+        }
     }
     // wrong degree (b): a proof of 2^k rows presented to the circuit for 2^(k±1)
     if built.len() == 2 {
